@@ -41,7 +41,7 @@ def finding_key(cs, bad, ri):
 def main():
     c = Check('C10')
     c.prove()
-    build_driver()
+    build_driver(['rr'])          # private driver with the rr fragment only (Extract/lists/rr.list, registry.d/rr.*)
     gen_sactrace()
     build_harness(['owrun'])
     rng = c.rng
@@ -114,7 +114,7 @@ def main():
             c.count((m, cs['ps'], cs['st0'], cs['rain'], cs['pet']), nontrivial=wet and len(cs['rain']) > 0)
             nmodel[m] = nmodel.get(m, 0) + 1
             nreg[cs['regime']] = nreg.get(cs['regime'], 0) + 1
-            diff = kresults_agree(ri, rm) if m in EXACT else kresults_agree(ri, rm, rtol=1e-9, atol=1e-12)
+            diff = kresults_agree(ri, rm) if m in EXACT else kresults_agree(ri, rm, rtol=1e-9, atol=abs_tol(cs['ps'], cs['st0'], cs['rain']))
             if diff:
                 retry.append((i, diff))
             desc = {'model': m, 'params': cs['ps'], 'initial_states': cs['st0'], 'regime': cs['regime'], 'kind': cs['kind'],
@@ -124,8 +124,9 @@ def main():
                 c.violation('oracle_%s_%s_%d.json' % (tag, m, i), desc, key=finding_key(cs, ('crash', ''), None))
                 finals.append(None)
                 continue
-            finals.append(ri[2])
             bad = ORACLES[m](cs['ps'], cs['st0'], cs['rain'], cs['pet'], ri[1], ri[2])
+            # a hot start is made only from a state of a run that itself satisfied the property
+            finals.append(None if bad else ri[2])
             if bad:
                 desc.update({'failure': bad[0], 'message': bad[1], 'runoff_head': ri[1][0][:12], 'final_states': ri[2]})
                 key = finding_key(cs, bad, ri)
@@ -146,7 +147,7 @@ def main():
         for (i, diff), lp in zip(retry, pres):
             cs = cases[i]
             d2 = 'exact comparison required' if cs['model'] in EXACT else \
-                conditioned_agree(parse_kresult(impl[i]), parse_kresult(model[i]), parse_kresult(lp), 1e-9, 1e-12)
+                conditioned_agree(parse_kresult(impl[i]), parse_kresult(model[i]), parse_kresult(lp), 1e-9, abs_tol(cs['ps'], cs['st0'], cs['rain']))
             if d2:
                 c.corr_broken.append({'case': [cs['model'], cs['ps'], cs['regime'], len(cs['rain']), cs['kind']], 'diff': diff,
                                       'conditioned': d2, 'line': lines[i][:4000]})
@@ -157,6 +158,32 @@ def main():
     illcond = [0]
     nmodel, nreg, nknown = {}, {}, {}
     finals = run_and_judge(cases, 's1')
+
+    # ---- malformed stream (model-vs-code only): state vectors that are too short / carry extra entries
+    odd = []
+    for m in ('Simhyd', 'Surm', 'Sacramento', 'GR4J'):
+        need = NSTATES.get(m, 6)
+        for k in range(6 if quick else 40):
+            ps = draw_params(rng, m, p_end=0.3)
+            n = rng.choice([0, max(0, need - 1), need + 2])
+            st = [rng.uniform(0, 1) for _ in range(n)]
+            if m == 'GR4J' and n >= 4:
+                st[2], st[3] = 1.0, 2.0
+            rain, pet = forcing(rng, rng.choice(REGIMES), rng.choice([0, 3, 20]))
+            odd.append((m, ps, st, rain, pet))
+    olines = [kcase(m, ps, st, [rain, pet]) for (m, ps, st, rain, pet) in odd]
+    oi, om = run_impl(olines), run_model(olines)
+    odd_panics = 0
+    for (m, ps, st, rain, pet), li, lm, line in zip(odd, oi, om, olines):
+        ri, rm = parse_kresult(li), parse_kresult(lm)
+        c.count(('odd', m, ps, st, rain, pet), nontrivial=False)
+        odd_panics += ri[0] != 'OK'
+        diff = kresults_agree(ri, rm, rtol=1e-9, atol=abs_tol(ps, st, rain))
+        if diff and ri[0] == 'OK' and rm[0] == 'OK':
+            ps2, rain2, pet2 = perturb_case(m, ps, rain, pet)
+            diff = conditioned_agree(ri, rm, parse_kresult(run_model([kcase(m, ps2, st, [rain2, pet2])])[0]), 1e-9, abs_tol(ps, st, rain))
+        if diff:
+            c.corr_broken.append({'case': ['malformed', m, ps, len(st), len(rain)], 'diff': diff, 'line': line[:4000]})
 
     # ---- stage 2: hot starts from states the model itself produced (non-zero initial storage)
     hot = []
@@ -171,13 +198,15 @@ def main():
                      'probability 0.3; GR4J x4 additionally on both sides of every integer and half-integer; x2 = 0 / x2 <= 0 classes), '
                      'each run under the five forcing regimes (dry, wet, intermittent with long dry spells, single pulse, extreme storm up to '
                      '1500 mm/day) for T in {0,1,2,7,40,400}; initial states = the model\'s own InitialiseStates (INIT command), '
-                     'plus prefix runs (stores observed in mid-run) and hot starts from those model-produced states; every case run through '
-                     'sim.Catalog and through the extracted Coq kernel (rtol 1e-9, atol 1e-12; RunoffCoefficient bit-exact) and judged by the '
+                     'plus prefix runs (stores observed in mid-run), hot starts from those model-produced states, the corpus witnesses of the known findings and a small malformed stream (short / over-long state vectors, model-vs-code only); every case run through '
+                     'sim.Catalog and through the extracted Coq kernel (rtol 1e-9, atol 1e-12*(1+largest parameter/initial store/daily rain); RunoffCoefficient bit-exact) and judged by the '
                      'C10 oracle with tolerance 1e-9*(1+sum rain); non-trivial = T>0 and some rain; distinct = distinct (model, parameters, initial states, series)')
-    c.finish(extra_cov={'cases_per_model': nmodel, 'cases_per_regime': nreg, 'parameter_vectors': len(vecs), 'known_finding_cases': nknown, 'ill_conditioned_cases_accepted': illcond[0], 'exhaustive': False},
+    c.finish(extra_cov={'cases_per_model': nmodel, 'cases_per_regime': nreg, 'parameter_vectors': len(vecs), 'malformed_cases': len(odd), 'malformed_panics_impl': odd_panics, 'known_finding_cases': nknown, 'ill_conditioned_cases_accepted': illcond[0], 'exhaustive': False},
              assumptions=['theorems are over exact reals (RArith); float round-off is covered only by the tolerance oracle on the implementation outputs',
                           'OCaml libm stands in for Go libm (exp, pow, tanh) in the correspondence run: rtol 1e-9',
-                          'Sacramento: store invariant and water balance are covered by the oracle only (sacramento_c10_partial)',
+                          'Sacramento: store invariant and water balance are covered by the oracle only (sacramento_c10_partial); oracle failures whose run contains '
+                          'one of the two recorded guard violations (ratio < -1 or adimc > uztwm+lztwm; fracp > 1 -- detected by SACTRACE, a copy of the current '
+                          'sacramento() regenerated from /repo whose outputs must be bit-identical to sim.Catalog\'s) are reported as KNOWN-FINDING, all others as VIOLATION',
                           'sim.Catalog wrapper (generated Run) is exercised, not modelled, in this check (see C04)'])
 
 
